@@ -477,6 +477,10 @@ func init() {
 		return true
 	})
 	// vFsFreeze(true): from now on any mutation step is recorded as a violation counter
+	// vFsFingerprint(root): changes iff any mutation step happened (stronger than byte identity)
+	reg(hp+"vFsFingerprint", func(i *interpreter, fr *frame, args []value) value {
+		return fmt.Sprintf("mutations=%d", len(i.env.fsm().log))
+	})
 	reg(hp+"vFsMutations", func(i *interpreter, fr *frame, args []value) value {
 		return len(i.env.fsm().log)
 	})
